@@ -8,7 +8,8 @@ def run(ctx):
     box = {}
     tb = threading.Thread(target=lambda: box.__setitem__("bin", ev.build(ctx)))
     tb.start()
-    mc = ev.model_check(ctx, "EvmTx_C07.cfg")
+    mc = ev.model_check(ctx, "EvmTx_C07.cfg")                     # depth 1 with edge export: the transaction classes
+    ev.model_check(ctx, "EvmTx_C07d.cfg", workers=max(2, ev.vf.NCPU // 2))   # depth 2, all properties
     if ctx.thorough:
         ev.model_check(ctx, "EvmTx_C07t.cfg", workers=max(2, ev.vf.NCPU // 2))
         ev.model_check(ctx, "EvmTx_C07int.cfg", workers=max(2, ev.vf.NCPU // 2))
@@ -31,7 +32,7 @@ def run(ctx):
             if v:
                 nev = v["total"]
                 ctx.log("trace validation: %d/%d events matched; counts: %s" % (v["matched"], v["total"], counts))
-                missing = [t for t in ev.TARGETS for o in ("ok", "fail") if "Applied/%s/%s" % (t, o) not in counts and not (t in ("REV", "LOOP") and o == "ok")]
+                missing = [t for t in ev.TARGETS for o in ("ok", "fail") if "Applied/%s/%s" % (t, o) not in counts and not (t in ev.NEVER_OK and o == "ok")]
                 missing += [t for t in ev.TARGETS if "Rejected/%s/fail" % t not in counts]
                 if missing:
                     ctx.infra("vacuous run: transaction classes never observed on the real code: %s" % missing)
